@@ -211,7 +211,21 @@ struct Fixture {
         if ( s->deq( v )) return { 1, v };
         return { 0 };
     }
-    void finish( std::ostream& ) {}
+    // sequential drain by the main thread after every scheduled operation: a lost or duplicated item becomes visible
+    void finish( std::ostream& out )
+    {
+        uint64_t t = 1000000;
+        for ( int guard = 0; guard < 64; ++guard ) {
+            long v = 0;
+            bool ok;
+            if ( sc ) { ok = s->front( v ) == 1; if ( ok && !s->pop_front()) { failed = true; failure = "pop_front failed after front() returned an item"; } }
+            else ok = s->deq( v );
+            out << "O 91 " << t << ' ' << t + 1 << " deq :";
+            if ( ok ) out << " 1 " << v << '\n'; else out << " 0\n";
+            t += 2;
+            if ( !ok ) break;
+        }
+    }
 };
 
 int main( int argc, char** argv )
